@@ -148,10 +148,15 @@ class Engine(GenericConcreteEngine[Callable[..., Any]]):
                 return tree, False, ("backtracking through binary operations is not implemented",)
             case Transfer(target=target) as transfer:
                 if target.engine == preferred:
-                    return transfer.reapply(operation.apply(target)), True, ()
+                    upstream, done, messages = operation.apply(target), True, ()
                 else:
                     upstream, done, messages = target.engine.backtrack_unary(operation, target, preferred)
-                    return (transfer.reapply(upstream), done, messages)
+                if upstream is target:
+                    # Nothing was inserted upstream; keep the transfer itself
+                    # (reapply would otherwise build a new one whenever this
+                    # transfer already holds a payload).
+                    return (transfer, done, messages)
+                return (transfer.reapply(upstream), done, messages)
         raise NotImplementedError(f"Unsupported relation type {tree} for engine {self}.")
 
     def execute(self, relation: Relation) -> RowIterable:
